@@ -429,8 +429,49 @@ def bounded(rep, tier):
                 a_, b_ = a_[a_.upper().find('VALUES'):], b_[b_.upper().find('VALUES'):]        # the literals; the statement frame may come from the fallback printer
                 if ' '.join(a_.split()) != ' '.join(b_.split()):
                     fails.setdefault(f'C07.bounded.{tgt}.plain-row.{type(v).__name__}', (repr((v, other)), f'row of plain values renders `{a_[:90]}`, the same row of constants `{b_[:90]}`'))
+    # a constant inside an expression (cast, unary minus, function argument, operand, BETWEEN bound, CASE, tuple): the literal is the one the constant
+    # gives alone - for every target it occurs in the rendered text, and the own text lexes without anything being swallowed (a `--` is a comment)
+    from mindsdb_sql.parser import ast as _ast
+
+    def contexts(c):
+        yield 'cast-int', _ast.TypeCast(type_name='int', arg=c)
+        yield 'cast-float', _ast.TypeCast(type_name='float', arg=c)
+        yield 'cast-char', _ast.TypeCast(type_name='char', arg=c)
+        yield 'neg', _ast.UnaryOperation(op='-', args=[c])
+        yield 'func', _ast.Function(op='abs', args=[c])
+        yield 'binop-left', BinaryOperation('+', args=[c, Identifier('a')])
+        yield 'binop-right', BinaryOperation('-', args=[Identifier('a'), c])
+        yield 'between', _ast.BetweenOperation(args=[Identifier('a'), c, Constant(9)])
+        yield 'case', _ast.Case(rules=[[BinaryOperation('=', args=[Identifier('a'), Constant(0)]), c]], default=Constant(0))
+        yield 'in-tuple', BinaryOperation('in', args=[Identifier('a'), _ast.Tuple(items=[c, Constant(0)])])
+    ctx_vals = [1.5, -5, -2.5, 7, 0.25, 12345678901234567890, 'x', "it's", True]
+    lexer_cls = lrtab.load('mindsdb').Lexer
+    for v in ctx_vals:
+        for cname, node in contexts(Constant(v)):
+            q = Select(targets=[node], from_table=Identifier('t'))
+            # own text
+            n += 1
+            try:
+                text = q.to_string()
+                toks = list(lexer_cls().tokenize(text))
+                covered = ''.join(text[t.index:t.end] for t in toks)
+                if covered != ''.join(text.split()) and ''.join(covered.split()) != ''.join(text.split()):
+                    fails.setdefault(f'C07.bounded.to_string.context.{cname}', (repr(v), f'`{text[:90]}` lexes to `{covered[:90]}`: part of the text is not read as tokens'))
+            except Exception as e:
+                fails.setdefault(f'C07.bounded.to_string.context.{cname}', (repr(v), f'{type(e).__name__}: {str(e)[:80]}'))
+            for tgt in TARGETS:
+                n += 1
+                try:
+                    lone = SqlalchemyRender(tgt).get_string(Select(targets=[Constant(v, alias=Identifier('x0'))]), with_failback=False)
+                    m = _re.search(r'SELECT (.*?) AS "?`?\[?x0', lone, _re.S)
+                    lit = m.group(1).strip() if m else None
+                    sql = SqlalchemyRender(tgt).get_string(q, with_failback=False)
+                except Exception as e:
+                    continue            # a refusal (or a context this target cannot express) is not a wrong literal
+                if lit and lit not in sql:
+                    fails.setdefault(f'C07.bounded.{tgt}.context.{cname}', (repr(v), f'alone the constant renders `{lit}`; inside {cname} the statement is `{" ".join(sql.split())[:110]}`'))
     rep.bounded_evals = n
-    rep.bounded_rule = (f'all strings of length <= {maxlen} over {chars} plus injection-shaped samples, as Constant in select list / WHERE / IN list / INSERT / UPDATE, '
+    rep.bounded_rule = (f'constants inside casts / unary minus / functions / operands / BETWEEN / CASE / tuples keep the literal they have alone (5 targets) and their own text lexes completely; all strings of length <= {maxlen} over {chars} plus injection-shaped samples, as Constant in select list / WHERE / IN list / INSERT / UPDATE, '
                         'rendered by the real SqlalchemyRender for 5 dialects and scanned by an independent scanner of the target family; own to_string re-parsed; '
                         'failures grouped by target x value region; date / datetime / timedelta / bool / int / float constants in select list, WHERE and INSERT (own text re-parsed; quoted kinds scanned in every target); mixtures of equal-valued int/float/bool/str/NULL constants in one statement and across statements of one renderer vs each constant rendered alone; INSERT rows of plain python values (None, numbers, booleans, strings, dates) vs the same rows of constants, per target')
     for cid, (inp, obs) in sorted(fails.items()):
